@@ -98,6 +98,9 @@ def run(model, tier="quick"):
     from . import aave_refs as _R
     from ..rules.formula import formula_check as _fc
     _fc(res, model, "AaveV3CoreLib.health_factor", _R.REF_HF, "HF = sum(collateral_i * LT_i) / sum(debt): each collateral with ITS OWN threshold")
+    # constructors establish the relations between fields that the references above take for granted
+    from .ctor_refs import constructors
+    res.units["constructor_references"] = constructors(res, model, ('aave',))
     from ..rules.fresh import fresh_rule
     if "R-FRESH" not in res.rules:
         res.rules.append("R-FRESH")
